@@ -343,6 +343,15 @@ class Flattener:
                 if isinstance(tbl, ast.Tuple) and all(isinstance(r_, ast.Tuple) and all(plain(x_) for x_ in r_.elts) or plain(r_)
                                                       for r_ in tbl.elts):
                     return [_clone(r_) for r_ in tbl.elts]
+            if isinstance(it, ast.Name) and getattr(self, 'root', None) is not None:
+                # a local table: the name is bound once, to a tuple literal, and nowhere else in the function
+                binds = [x_ for x_ in ast.walk(self.root) if isinstance(x_, ast.Name) and x_.id == it.id and
+                         not isinstance(x_.ctx, ast.Load)]
+                if len(binds) == 1:
+                    par = getattr(binds[0], '_fparent', None)
+                    if isinstance(par, ast.Assign) and len(par.targets) == 1 and par.targets[0] is binds[0] and \
+                       isinstance(par.value, ast.Tuple) and it.id not in self.func.all_params:
+                        return literal_items(par.value)
             if isinstance(it, (ast.Tuple, ast.List)) and all(plain(e) for e in it.elts):
                 return list(it.elts)
             if isinstance(it, (ast.Tuple, ast.List)) and it.elts and all(
@@ -429,8 +438,7 @@ class Flattener:
         if isinstance(st, ast.For) and not st.orelse and isinstance(st.target, ast.Tuple) and items_ is not None and \
            1 <= len(items_) <= 4 and all(isinstance(t_, ast.Name) for t_ in st.target.elts) and \
            all(isinstance(i_, ast.Tuple) and len(i_.elts) == len(st.target.elts) and all(plain(x_) for x_ in i_.elts) for i_ in items_) and \
-           len(st.body) <= 6 and \
-           not any(isinstance(n, (ast.Break, ast.Continue, ast.Return)) for b in st.body for n in ast.walk(b)) and \
+           len(st.body) <= 6 and not _own_break_continue(st) and \
            not any(isinstance(n, ast.Name) and n.id in {t_.id for t_ in st.target.elts} and isinstance(n.ctx, ast.Store)
                    for b in st.body for n in ast.walk(b)):
             # for a, b in enumerate((X, Y)) / zip(...) over literals: the body once per row, names replaced
@@ -589,6 +597,20 @@ def _scalarise_tables(node):
         rec(y)
         return y
     rec(node)
+
+
+def _own_break_continue(loop):
+    """does the loop body hold a break / continue of this very loop (not of a loop nested in it)?"""
+    todo = list(loop.body)
+    while todo:
+        n = todo.pop()
+        if isinstance(n, (ast.Break, ast.Continue)):
+            return True
+        if isinstance(n, (ast.For, ast.While, ast.FunctionDef, ast.Lambda, ast.ClassDef)):
+            todo.extend(getattr(n, 'orelse', []) if isinstance(n, (ast.For, ast.While)) else [])
+            continue
+        todo.extend(ast.iter_child_nodes(n))
+    return False
 
 
 def _tuple_index(sl, flds):
